@@ -28,7 +28,7 @@ def _run(module, cfg, metadir, env=None, workers=1, extra=(), timeout=3600, heap
     e = dict(os.environ)
     if env:
         e.update({k: str(v) for k, v in env.items()})
-    cmd = ["java", "-XX:+UseParallelGC", "-XX:ParallelGCThreads=" + ("2" if workers == 1 else "8"), "-Xmx" + heap, "-cp", JAR, "tlc2.TLC",
+    cmd = ["java", "-XX:+UseParallelGC", "-XX:ParallelGCThreads=" + ("2" if workers == 1 else "8"), "-Xmx" + heap, "-Xss256m", "-cp", JAR, "tlc2.TLC",
            "-workers", str(workers), "-metadir", metadir, "-noGenerateSpecTE",
            "-config", cfg if os.path.isabs(cfg) else os.path.join(SPEC, cfg)] + list(extra) + [os.path.join(SPEC, module)]
     t0 = time.time()
